@@ -41,6 +41,7 @@ type spec struct {
 	Idle   []idleSpec `json:"idle,omitempty"`   // slowhs: connections that are part-way through the handshake when the next peer arrives
 	Over   []overSpec `json:"over,omitempty"`   // over: announced lengths above the receive limit, one connection each
 	MaxRx  int        `json:"maxrx,omitempty"`  // over: OptionMaxRecvSize set on the socket before its end point is made (0: default)
+	Serve  string     `json:"serve,omitempty"`  // wsemb: who runs the HTTP server of a ws/wss listener: "handler" (the application's own http.Server, OptionWebSocketHandler) | "mux" (the listener's, with application routes added through OptionWebSocketMux)
 }
 
 func TestMain(m *testing.M) { hx.Main(m) }
@@ -197,6 +198,8 @@ func TestC15(t *testing.T) {
 	cases = append(cases, genSlowHsCases(rnd, r.Pick(2, 12))...)
 	// lengths of which the upper bytes count
 	cases = append(cases, genOverCases(rnd, r.Pick(2, 16), r.Pick(3, 5))...)
+	// ws/wss listeners that are part of the application's HTTP service
+	cases = append(cases, genWSEmbCases(rnd, r.Pick(2, 12))...)
 
 	r.Run(cases, func(c *mon.Case) {
 		sp := c.Spec.(spec)
@@ -215,7 +218,7 @@ func TestC15(t *testing.T) {
 			caseFrame(c, sp)
 		case "hsdev":
 			caseHsDev(c, sp)
-		case "ws":
+		case "ws", "wsemb":
 			caseWS(c, sp)
 		case "conc":
 			caseConc(c, sp)
